@@ -22,11 +22,14 @@ pub struct SCase {
     pub txs_per_block: u8,
     /// range selectors (C16): start and length
     pub range: Option<(u16, u16)>,
+    /// number of -v flags
+    #[serde(default)]
+    pub verbose: u8,
 }
 
 fn scase(coins: Vec<Coin>, script: BS<Vec<u8>>, nscripts: std::ops::Range<usize>, ranges: bool) -> BS<SCase> {
     let r = if ranges { prop_oneof![2 => Just(None), 1 => (any::<u16>(), any::<u16>()).prop_map(Some)].boxed() } else { Just(None).boxed() };
-    (proptest::sample::select(coins), proptest::collection::vec(script, nscripts), 1u8..6, 1u8..8, r).prop_map(|(coin, scripts, per_tx, txs_per_block, range)| SCase { coin, scripts, per_tx, txs_per_block, range }).boxed()
+    (proptest::sample::select(coins), proptest::collection::vec(script, nscripts), 1u8..6, 1u8..8, r, prop_oneof![4 => Just(0u8), 1 => Just(1u8), 1 => Just(2u8)]).prop_map(|(coin, scripts, per_tx, txs_per_block, range, verbose)| SCase { coin, scripts, per_tx, txs_per_block, range, verbose }).boxed()
 }
 
 fn build(c: &SCase) -> vpmodel::spec::Built {
@@ -55,7 +58,9 @@ pub fn check_c05(c: &SCase) -> Verdict {
     let mut plan = canonical_plan(built.coin, &built.blocks);
     let w = infra!(World::create("c05", &mut plan));
     let all = built.all();
-    let out = infra!(w.run(&RunOpts::new(c.coin, Callback::CsvDump)));
+    let mut o0 = RunOpts::new(c.coin, Callback::CsvDump);
+    o0.verbose = c.verbose;
+    let out = infra!(w.run(&o0));
     if let Some(v) = timed_out_is_infra(&out) {
         return v;
     }
@@ -135,7 +140,9 @@ pub fn check_c06(c: &SCase) -> Verdict {
     let mut plan = canonical_plan(built.coin, &built.blocks);
     let w = infra!(World::create("c06", &mut plan));
     let all = built.all();
-    let out = infra!(w.run(&RunOpts::new(c.coin, Callback::CsvDump)));
+    let mut o0 = RunOpts::new(c.coin, Callback::CsvDump);
+    o0.verbose = c.verbose;
+    let out = infra!(w.run(&o0));
     if let Some(v) = timed_out_is_infra(&out) {
         return v;
     }
@@ -206,6 +213,7 @@ pub fn check_c16(c: &SCase) -> Verdict {
     let mut plan = canonical_plan(built.coin, &built.blocks);
     let w = infra!(World::create("c16", &mut plan));
     let mut o = RunOpts::new(c.coin, Callback::OpReturn);
+    o.verbose = c.verbose;
     o.start = start;
     o.end = end;
     let out = infra!(w.run(&o));
